@@ -31,6 +31,10 @@ pub enum Fault {
     ReadOnlyProc,
     ReadOnlySys,
     DevFull,
+    /// directory without write permission / existing file without write permission, written by an UNPRIVILEGED child
+    /// process (the harness runs as root, for which permissions do not apply: the child drops to uid/gid 65534 first)
+    ReadOnlyDir,
+    ReadOnlyFile,
     /// RLIMIT_FSIZE = permille/1000 of the full output length (in a child process)
     ShortWrite(u32),
 }
@@ -77,6 +81,8 @@ pub fn from_json(v: &Value) -> Option<Case> {
             "ReadOnlyProc" => Fault::ReadOnlyProc,
             "ReadOnlySys" => Fault::ReadOnlySys,
             "DevFull" => Fault::DevFull,
+            "ReadOnlyDir" => Fault::ReadOnlyDir,
+            "ReadOnlyFile" => Fault::ReadOnlyFile,
             _ => return None,
         }
     };
@@ -167,6 +173,7 @@ pub fn child_main(args: &[String]) -> ! {
     let c = from_json(&v).expect("case");
     let path = &args[1];
     let limit: u64 = args[2].parse().expect("limit");
+    let drop_uid: Option<u32> = args.get(3).and_then(|s| s.parse().ok());
     let built = match crate::fq::build(&c.build) {
         Ok(Ok(b)) => b,
         _ => {
@@ -175,11 +182,24 @@ pub fn child_main(args: &[String]) -> ! {
         }
     };
     unsafe {
-        libc::signal(libc::SIGXFSZ, libc::SIG_IGN);
-        let lim = libc::rlimit { rlim_cur: limit as libc::rlim_t, rlim_max: limit as libc::rlim_t };
-        if libc::setrlimit(libc::RLIMIT_FSIZE, &lim) != 0 {
-            println!("{}", json!({"setup": "setrlimit_failed"}));
-            std::process::exit(0);
+        if limit != u64::MAX {
+            libc::signal(libc::SIGXFSZ, libc::SIG_IGN);
+            let lim = libc::rlimit { rlim_cur: limit as libc::rlim_t, rlim_max: limit as libc::rlim_t };
+            if libc::setrlimit(libc::RLIMIT_FSIZE, &lim) != 0 {
+                println!("{}", json!({"setup": "setrlimit_failed"}));
+                std::process::exit(0);
+            }
+        }
+        if let Some(uid) = drop_uid {
+            if libc::setgroups(0, std::ptr::null()) != 0 || libc::setgid(uid) != 0 || libc::setuid(uid) != 0 || libc::getuid() != uid {
+                println!("{}", json!({"setup": "setuid_failed"}));
+                std::process::exit(0);
+            }
+            // the fault must really be there for this uid: a plain create must fail
+            if std::fs::OpenOptions::new().write(true).create(true).open(path).is_ok() {
+                println!("{}", json!({"setup": "fault_not_provided"}));
+                std::process::exit(0);
+            }
         }
     }
     println!("{}", json!({"setup": "ready"}));
@@ -235,6 +255,19 @@ pub fn check(c: &Case, obs: &mut Obs) -> Result<(), Fail> {
         Fault::ReadOnlyProc => (format!("/proc/fqv-{}.{}", uniq, ext), true),
         Fault::ReadOnlySys => (format!("/sys/fqv-{}.{}", uniq, ext), true),
         Fault::DevFull => ("/dev/full".to_string(), true),
+        Fault::ReadOnlyDir => {
+            use std::os::unix::fs::PermissionsExt;
+            let d = format!("{}/ro-dir-{}", dir, uniq);
+            let _ = std::fs::create_dir_all(&d);
+            let _ = std::fs::set_permissions(&d, std::fs::Permissions::from_mode(0o555));
+            (format!("{}/out.{}", d, ext), true)
+        }
+        Fault::ReadOnlyFile => {
+            use std::os::unix::fs::PermissionsExt;
+            std::fs::write(&good, b"read-only content").expect("scratch write");
+            let _ = std::fs::set_permissions(&good, std::fs::Permissions::from_mode(0o444));
+            (good.clone(), true)
+        }
         Fault::ShortWrite(_) => (good.clone(), true),
     };
     // validate that the environment really provides the fault (else the class is skipped, never asserted)
@@ -256,21 +289,40 @@ pub fn check(c: &Case, obs: &mut Obs) -> Result<(), Fail> {
         obs.label(&format!("fault_not_available:{}", cls));
         return Ok(());
     }
-    let outcome = if let Fault::ShortWrite(permille) = c.fault {
-        let limit = (want.len() as u64 * permille as u64 / 1000).min(want.len() as u64 - 1);
+    let in_child: Option<(u64, Option<u32>)> = match c.fault {
+        Fault::ShortWrite(permille) => Some(((want.len() as u64 * permille as u64 / 1000).min(want.len() as u64 - 1), None)),
+        Fault::ReadOnlyDir | Fault::ReadOnlyFile => Some((u64::MAX, Some(65534))),
+        _ => None,
+    };
+    let outcome = if let Some((limit, uid)) = in_child {
+        let permille = if let Fault::ShortWrite(p) = c.fault { p } else { 0 };
         let case_path = format!("{}/{}.case.json", dir, uniq);
         std::fs::write(&case_path, to_json(c).to_string()).expect("scratch write");
         let exe = std::env::current_exe().expect("current_exe");
-        let out = std::process::Command::new(exe).arg("__c19child").arg(&case_path).arg(&path).arg(limit.to_string()).output().expect("spawn child");
+        let mut cmd = std::process::Command::new(exe);
+        cmd.arg("__c19child").arg(&case_path).arg(&path).arg(limit.to_string());
+        if let Some(u) = uid {
+            cmd.arg(u.to_string());
+        }
+        let out = cmd.output().expect("spawn child");
         let _ = std::fs::remove_file(&case_path);
         let text = String::from_utf8_lossy(&out.stdout).to_string();
         let lines: Vec<Value> = text.lines().filter_map(|l| serde_json::from_str(l).ok()).collect();
         let ready = lines.iter().any(|l| l.get("setup").and_then(|s| s.as_str()) == Some("ready"));
+        if uid.is_some() && !ready {
+            // no unprivileged user available here (or the fault does not hold for it): class skipped, never asserted
+            obs.label(&format!("fault_not_available:{}", cls));
+            let _ = std::fs::remove_file(&good);
+            let _ = std::fs::remove_dir_all(format!("{}/ro-dir-{}", dir, uniq));
+            return Ok(());
+        }
         if !ready {
             panic!("C19 child could not set up the fault: {:?} / {:?}", text, String::from_utf8_lossy(&out.stderr));
         }
         obs.count("child_processes", 1);
-        obs.label(&format!("short_write_at:{}", match permille { 0 => "0", 1..=499 => "first_half", _ => "second_half" }));
+        if uid.is_none() {
+            obs.label(&format!("short_write_at:{}", match permille { 0 => "0", 1..=499 => "first_half", _ => "second_half" }));
+        }
         match lines.iter().find(|l| l.get("result").is_some()) {
             Some(l) => match l["result"].as_str().unwrap_or("") {
                 "ok" => Outcome::Ok,
@@ -301,6 +353,9 @@ pub fn check(c: &Case, obs: &mut Obs) -> Result<(), Fail> {
         }
         if let Fault::ParentIsFile = c.fault {
             let _ = std::fs::remove_file(format!("{}/file-{}", dir, uniq));
+        }
+        if let Fault::ReadOnlyDir = c.fault {
+            let _ = std::fs::remove_dir_all(format!("{}/ro-dir-{}", dir, uniq));
         }
     };
     let res = (|| -> Result<(), Fail> {
@@ -367,6 +422,8 @@ fn fault_strategy() -> BoxedStrategy<Fault> {
         1 => Just(Fault::ReadOnlyProc),
         1 => Just(Fault::ReadOnlySys),
         2 => Just(Fault::DevFull),
+        1 => Just(Fault::ReadOnlyDir),
+        1 => Just(Fault::ReadOnlyFile),
         6 => prop_oneof![1 => Just(0u32), 1 => Just(999u32), 4 => 0u32..1000].prop_map(Fault::ShortWrite),
     ]
     .boxed()
@@ -377,19 +434,19 @@ pub fn run(e: &'static Engine) {
         "Generated: QR (versions 1-6 mostly, some up to 40 for multi-write sizes) x renderer options (margin, shapes, colours, \
          image) x writer in {SvgBuilder::to_file, ImageBuilder::to_file} x fault class: none (fresh file), existing longer file \
          (must be truncated), missing parent directory, path is a directory, parent is a regular file, 300-byte name, embedded NUL, \
-         empty path, /proc and /sys locations (read-only pseudo file systems), /dev/full (ENOSPC at write time), and a short write \
+         empty path, /proc and /sys locations (read-only pseudo file systems), a directory / an existing file without write permission (written by an unprivileged child process), /dev/full (ENOSPC at write time), and a short write \
          at a generated offset L in [0, len) produced in a child process with SIGXFSZ ignored and RLIMIT_FSIZE = L. Every class is \
          also enumerated once per writer. Oracle: no panic; Ok(()) => file bytes == to_str() / to_bytes() of the same builder and QR; \
          fault injected => Err whose conversion into ConvertError is the Io variant; never Ok with a differing file. Fault classes \
          the environment does not provide (probed first) are skipped and labelled, never asserted. Non-trivial: a fault was injected; \
          distinct by (writer, class, L bucket of 5%, QR).",
     );
-    e.assume("runs as root, so permission faults are exercised through /proc, /sys and /dev/full rather than chmod");
+    e.assume("the harness runs as root, for which file permissions do not apply: read-only locations are exercised through /proc, /sys, /dev/full, and through a child process that drops to uid/gid 65534 before writing into a 0555 directory / over a 0444 file (skipped and labelled if setuid is unavailable)");
     e.assume("RLIMIT_FSIZE with SIGXFSZ ignored makes the kernel return a partial write followed by EFBIG at exactly L");
     crate::engine::run_regress(e, &|c, o| replay(e, c, o));
     let all_faults = vec![
         Fault::None, Fault::ExistingLonger, Fault::MissingDir, Fault::IsDir, Fault::ParentIsFile, Fault::NameTooLong, Fault::EmbeddedNul,
-        Fault::EmptyPath, Fault::ReadOnlyProc, Fault::ReadOnlySys, Fault::DevFull, Fault::ShortWrite(0), Fault::ShortWrite(1), Fault::ShortWrite(500), Fault::ShortWrite(999),
+        Fault::EmptyPath, Fault::ReadOnlyProc, Fault::ReadOnlySys, Fault::DevFull, Fault::ReadOnlyDir, Fault::ReadOnlyFile, Fault::ShortWrite(0), Fault::ShortWrite(1), Fault::ShortWrite(500), Fault::ShortWrite(999),
     ];
     let mut jobs: Vec<Job> = Vec::new();
     for (wi, writer) in [Writer::Svg, Writer::Png].into_iter().enumerate() {
